@@ -14,6 +14,8 @@ mod rawmode;
 mod sessions;
 mod render;
 #[cfg(feature = "sqlite")]
+mod ed_sqlite;
+#[cfg(feature = "sqlite")]
 mod sqlite;
 
 use common::CharInfoEmitter;
@@ -34,6 +36,10 @@ fn exec_line(req: &str) -> String {
         Some("hf") => histfile::exec(&f[1..]),
         Some("sess") => sessions::exec(&f[1..]),
         Some("sessx") => sessions::exec_x(&f[1..]),
+        #[cfg(feature = "sqlite")]
+        Some("ed07s") => ed::exec_sqlite(&f[1..]),
+        #[cfg(not(feature = "sqlite"))]
+        Some("ed07s") => None,
         Some(t) if t.starts_with("ed") => ed::exec(&f[1..]),
         Some("keys") => keys::exec(&f[1..]),
         Some("lb") | Some("lb4") => lb::exec(&f[1..]),
@@ -124,6 +130,8 @@ fn main() {
                 "ed13" => ed::gen_profile(&ctx, "ed13", ed::Profile::Validator, &mut sink),
                 "ed17" => ed::gen_profile(&ctx, "ed17", ed::Profile::Malformed, &mut sink),
                 "ed07" => ed::gen_profile(&ctx, "ed07", ed::Profile::History, &mut sink),
+                #[cfg(feature = "sqlite")]
+                "ed07s" => ed_sqlite::gen(&ctx, &mut sink),
                 "ed08" => ed::gen_profile(&ctx, "ed08", ed::Profile::Search, &mut sink),
                 "ed14" => ed::gen_profile(&ctx, "ed14", ed::Profile::Complete, &mut sink),
                 "ed06" => ed::gen_profile(&ctx, "ed06", ed::Profile::Kill, &mut sink),
